@@ -43,41 +43,25 @@ CLAIMED = {
         design_ref="DESIGN.md 7 (C03)", note="no external assumptions beyond S1/S2",
         technique="contract-based deductive verification: AST->VC symbolic execution of the real functions, z3/cvc5"),
     'C04': dict(cat=P,
-        text="Integer half proved unbounded: _twos_complement and IntegerDataEncoding._get_raw_value against "
-             "int_decode(bits(...), n, encoding, byte order) for symbolic width, offset and buffer, cursor clause "
-             "included. The value/class selection of NumericDataEncoding.parse_value and the float half (IEEE via "
-             "struct.unpack = E2, MIL-STD-1750A arithmetic) are checked by the bounded stand-in against exact-rational "
-             "reference decoders (special bit patterns: signed zeros, infinities, NaN, subnormals).",
-        design_ref="DESIGN.md 7 (C04)", note="E2 (struct.unpack is the IEEE-754 value), E3 (real arithmetic); float half bounded",
-        technique="contract-based deductive verification (integers); bounded stand-in for floats and class selection"),
-    'C05': dict(cat=X,
-        text="parse_ccsds_packet and the container walk are checked against ref_parse (descend to the unique child whose "
-             "criteria hold; abstract dead end / ambiguity -> unrecognized with partial data; header and user-data "
-             "views) on random container trees (depth 3, overlapping criteria, nested references, unconditional "
-             "inheritance) built from objects and loaded from XML; inheritor back-population is compared with the set of "
-             "containers naming the base. Header accessors and the cursor reads underneath are proved (C03/C13).",
-        design_ref="DESIGN.md 7 (C05), 16", note="bounded stand-in for the walk; see evidence.bounded", technique=BOUNDED_TECH),
-    'C06': dict(cat=X,
-        text="Comparison / Condition / BooleanExpression / DiscreteLookup.evaluate are checked against the mathematical "
-             "relation (exact rationals for int-vs-float) with the literal coerced in the type of the selected value: "
-             "every accepted operator spelling x both selectors x int/float/str values incl. 0, 0.0, '' and negatives; "
-             "ALL ANDed/ORed trees of depth <= 3 over two conditions x all assignments, random trees to depth 5.",
-        design_ref="DESIGN.md 7 (C06), 16", note="bool- and bytes-valued operands and mixed text/number operands are outside the statement (contract requires)",
-        technique=BOUNDED_TECH),
-    'C07': dict(cat=X,
-        text="String and binary parse_value are checked against reference decoders written from the statement (field "
-             "length fixed / first matching lookup / referenced raw-or-calibrated value through slope*x+intercept; binary "
-             "left-padded; string raw buffer right-padded; text = whole buffer | before the first character-aligned "
-             "terminator | leading size tag), cursor == old + computed length; lengths that are not whole bytes, bit "
-             "offsets 0..11, seven character encodings. The bit reads underneath are proved (C03).",
-        design_ref="DESIGN.md 7 (C07), 16", note="E4 (codecs are CPython's)", technique=BOUNDED_TECH),
-    'C08': dict(cat=X,
-        text="Numeric parse_value (first matching context calibrator, else default, else raw; calibrated results are "
-             "FloatParameter; raw_value kept), polynomial and spline calibration (every knot, both end points, "
-             "extrapolation on/off) are checked against exact-rational reference semantics; enumeration and boolean "
-             "derivation through whole-packet decoding. Integer raw extraction underneath is proved (C04).",
-        design_ref="DESIGN.md 7 (C08), 16", note="rounding is not claimed: float results compared to the exact value up to 1e-9 relative (S3)",
-        technique=BOUNDED_TECH),
+        text="Integer half proved unbounded end to end: _twos_complement, IntegerDataEncoding._get_raw_value (int_decode of the field's bits for symbolic width, offset, buffer, byte order), NumericDataEncoding.parse_value (value/class selection, raw_value == the field, cursor == old + width) and the parameter-type delegation on top of it. Float half: parse_value's selection logic and `raw_value == float_field(bits)` are proved against the ASSUMED contract of FloatDataEncoding._get_raw_value (closure chosen in __init__; IEEE via struct.unpack = E2); that contract itself is checked by the bounded stand-in against exact-rational reference decoders (signed zeros, infinities, NaN, subnormals, MIL-STD-1750A).",
+        design_ref='DESIGN.md STATUS, 7 (C04)', note='E2 (struct.unpack is the IEEE-754 value), E3 (real arithmetic); FloatDataEncoding._get_raw_value bounded',
+        technique='contract-based deductive verification: AST->VC symbolic execution of the real functions against sidecar contracts, z3/cvc5; bounded stand-in for the float bit-pattern decoding'),
+    'C05': dict(cat=P,
+        text='parse_ccsds_packet is PROVED: a descent happens only to the unique child whose restriction criteria all hold (oracle nvalid == 1, child satisfies rc_match and is one of the inheritors); normal return only at a concrete container with no matching child; UnrecognizedPacketTypeError exactly at an abstract dead end or an ambiguity, carrying the packet decoded so far (payload obligation); the result is the argument packet. The criteria evaluators underneath are proved (C06). The entry-list walk SequenceContainer.parse is an ASSUMED frame-only contract (writes packet items and cursor only); which items it writes, nested references expanded in place, header/user-data views and inheritor back-population are checked against ref_parse on random container trees (bounded), incl. zero-width trailing entries and packets cut to the consumed length.',
+        design_ref='DESIGN.md STATUS, 7 (C05)', note='SequenceContainer.parse assumed (frame only) + bounded; from_xtce bounded (E6)',
+        technique='contract-based deductive verification: AST->VC symbolic execution of the real functions against sidecar contracts, z3/cvc5; bounded stand-in for the entry-list walk and the XML reader'),
+    'C06': dict(cat=P,
+        text='All four evaluators are PROVED for every operator spelling, both selectors, int/float/str operands incl. falsy values and int-versus-float (exact over the reals), literals coerced in the type of the selected value: Comparison.evaluate, Condition.evaluate, BooleanExpression.evaluate with its nested _and/_or (structural induction through the contracts of the nested functions: arbitrary depth), DiscreteLookup.evaluate (first entry whose criteria all hold). Denotations are opaque spec functions (sem_cmp, sem_cond, sem_and/sem_or, sem_bexp) revealed only in the proof of the function that implements them; clients (context calibrators, container descent, computed lengths) use the denotations. The same contracts are run natively against an exact-rational reference (near-equal floats, conditions differing only in a selector).',
+        design_ref='DESIGN.md STATUS, 7 (C06)', note='bool- and bytes-valued operands and mixed text/number operands are outside the statement (contract requires)',
+        technique='contract-based deductive verification: AST->VC symbolic execution of the real functions against sidecar contracts, z3/cvc5; opaque spec functions with reveal'),
+    'C07': dict(cat=P,
+        text="PROVED: the linear adjuster closure (ints; floats over the reals with ValueError iff slope*x+intercept is not whole), String/BinaryDataEncoding._calculate_size (fixed | FIRST matching lookup incl. value 0 | referenced raw-or-calibrated value through the adjustment), _get_raw_buffer (whole buffer right-padded), BinaryDataEncoding.parse_value (exactly the field's bits, left-padded; cursor == old + computed length, negative lengths raise) and StringDataEncoding.parse_value (raw value = buffer; text = decode of the whole buffer | of the part before the FIRST termination character at a character boundary | of the part whose bit length the leading size tag gives), and the parameter-type delegation. bytes.decode is an uninterpreted function (E4). Lengths referencing float-valued parameters and the codecs are covered by the bounded stand-in against reference decoders.",
+        design_ref='DESIGN.md STATUS, 7 (C07)', note="E4 (codecs are CPython's); packets whose length references are floats: bounded",
+        technique='contract-based deductive verification: AST->VC symbolic execution of the real functions against sidecar contracts, z3/cvc5; bounded stand-in for float-valued length references'),
+    'C08': dict(cat=P,
+        text='PROVED over the reals: PolynomialCalibrator.calibrate (sum a_i*x^n_i), SplineCalibrator order 0 and 1 (step / chord interpolation over the CLOSED range incl. the last knot, extrapolation only when enabled else CalibrationError), ContextCalibrator.calibrate, NumericDataEncoding.parse_value (FIRST context calibrator whose criteria hold, else default, else the raw value; calibrated results are FloatParameter; raw_value is the uncalibrated field), EnumeratedParameterType.parse_value over integer encodings (label of the RAW value, ValueError path for unlisted values, raw_value kept) and BooleanParameterType.parse_value for all four encodings (truthiness of the RAW value). Float rounding is not claimed (S3); float- and string-encoded enumerations and time types are checked by the bounded stand-in through whole-packet decoding against exact rationals.',
+        design_ref='DESIGN.md STATUS, 7 (C08)', note='rounding not claimed: native comparison up to 1e-9 relative (S3)',
+        technique='contract-based deductive verification: AST->VC symbolic execution of the real functions against sidecar contracts, z3/cvc5; bounded stand-in for float/string-encoded enumerations'),
     'C09': dict(cat=X,
         text="Ghost program c09_roundtrip on random definitions built from objects and loaded from XML: L(W(D)) is "
              "compared with D by an independent structural comparison (adjustment callables probed) and by identical "
@@ -91,17 +75,14 @@ CLAIMED = {
              "file and socket sources under E1, empty input and every cut point included (symbolic).",
         design_ref="DESIGN.md 7 (C10)", note="E1; decode-time exceptions of a definition's decoders belong to C07/C08/C14",
         technique="contract-based deductive verification incl. termination (loop variants)"),
-    'C11': dict(cat=X,
-        text="packet_generator is checked against ref_stream: output == per-packet parsing in stream order for all option "
-             "combinations, unrecognized packets in position as error objects, and the definition is structurally "
-             "unchanged by parsing (canonical dump before/after). The framer it iterates is proved (C02/C10).",
-        design_ref="DESIGN.md 7 (C11), 16", note="generators only, no threads", technique=BOUNDED_TECH),
-    'C12': dict(cat=X,
-        text="Segment reassembly is checked against the step function of the statement (per-APID open group, closed on "
-             "LAST whatever the outcome): ALL histories over {FIRST,CONT,LAST,UNSEG} x 2 APIDs up to length 4 (5 in the "
-             "thorough tier), random longer ones with gaps, cancelling gaps, wrap-around at 16383, secondary-header "
-             "lengths 0 and 2; combined raw bytes compared.",
-        design_ref="DESIGN.md 7 (C12), 16", note="bounded stand-in", technique=BOUNDED_TECH),
+    'C11': dict(cat=P,
+        text="packet_generator is PROVED against the proved framer contract: every yielded item is the raw packet (headers only), the packet object returned by parse_ccsds_packet for THIS raw packet alone (bytes(packet.raw_data) == the raw packet when unsegmented or combining is off), or - only when requested - the error object of an unrecognized packet whose partial_data is that packet; at most one item per raw packet; the only state carried between iterations is the segment-group dict, which is unchanged whenever combining is off (step clause `alone`). parse_ccsds_packet's frame obligations show it writes nothing but the packet's items and cursor. Interleaving of several generators and `canon_definition` unchanged are checked by the bounded stand-in (ref_stream), incl. one-APID streams that alternate recognizable / unrecognizable / ambiguous packets.",
+        design_ref='DESIGN.md STATUS, 7 (C11)', note="generators only, no threads; definition objects are immutable records in the prover's model (S5), the canonical-dump comparison is native",
+        technique='contract-based deductive verification: AST->VC symbolic execution of the real functions against sidecar contracts, z3/cvc5; bounded stand-in for interleaved generators'),
+    'C12': dict(cat=P,
+        text="The reassembly step function of the statement is PROVED as per-iteration step clauses of packet_generator over a symbolic dict of open groups (arbitrary APIDs and histories): FIRST opens/supersedes the group of its APID and yields nothing; CONTINUATION joins an open group, is dropped otherwise; LAST removes the group whatever the outcome (so no raw packet contributes twice), is dropped when no group is open or the counts are not consecutive modulo 16384 (spec in_sequence over bits 18..31); what is parsed is exactly the whole first packet followed by every later packet without its 6 + secondary_header_bytes leading bytes (recursive spec `tails`, loop invariant `joined`); other APIDs' groups are untouched (dict equality). The same contract is run natively on ALL histories up to length 4/5 over 2 APIDs, roll-over gaps and empty later segments.",
+        design_ref='DESIGN.md STATUS, 7 (C12)', note='warning texts are not part of the contract',
+        technique='contract-based deductive verification: AST->VC symbolic execution of the real functions against sidecar contracts, z3/cvc5; loop invariants, recursive spec functions'),
     'C13': dict(cat=P,
         text="Unbounded proof: create_ccsds_packet is proved to raise ValueError exactly outside the field ranges and "
              "otherwise to produce the CCSDS header polynomial v*2^45+t*2^44+s*2^43+a*2^32+f*2^30+c*2^16+(len-1) "
@@ -110,12 +91,9 @@ CLAIMED = {
         design_ref="DESIGN.md 7 (C13)", note="E11 (cached_property returns the first computed value; the buffer is immutable)",
         technique="contract-based deductive verification + lemmas as ghost client programs over contracts"),
     'C14': dict(cat=P,
-        text="Proof of the cursor accounting on the read path: every read that returns normally has nbits >= 0 and moves "
-             "the cursor by exactly nbits (monotone cursor), reads past the end raise or leave the cursor beyond the end, "
-             "integer fields advance by their width. The generator-level clause (yielded clean iff all bits consumed; "
-             "over-reads and negative lengths never clean) is checked by the bounded stand-in on streams with short, "
-             "exact and long packets.",
-        design_ref="DESIGN.md 7 (C14)", note="generator-level clause bounded", technique="contract-based deductive verification (cursor/nonneg postconditions); bounded stand-in at stream level"),
+        text='PROVED: both cursor reads return normally only for nbits >= 0 and move the cursor by exactly nbits; integer/float fields advance by their width, string/binary fields by the computed length (negative or over-long lengths raise); packet_generator yields a parsed packet with no length warning issued in that iteration exactly when pos == 8*len(raw_data), and withholds it otherwise unless parse_bad_pkts (yield clause clean_iff_consumed). The sum over the entry-list walk (SequenceContainer.parse, assumed frame-only) is checked by the bounded stand-in with packets cut to the consumed length and 1..7 left-over bits.',
+        design_ref='DESIGN.md STATUS, 7 (C14)', note='entry-list walk bounded',
+        technique='contract-based deductive verification: AST->VC symbolic execution of the real functions against sidecar contracts, z3/cvc5; bounded stand-in for the walk'),
     'C15': dict(cat=X,
         text="Same ghost program as C09: W(D) == W(D) with a fixed date, canonical dump of D unchanged by writing, every "
              "element in the definition's namespace, and W(L(W(L(W(D))))) == W(L(W(D))) byte for byte.",
